@@ -2,10 +2,12 @@
 //!
 //! The implementation chooses chunk boundaries and when to defragment; requests therefore carry the
 //! implementation's observed choice (`Runner::op_observed`) and the model validates it.
-use super::sbuf::{ground, parse_ranges};
+//! A1/A2 were defects of the pinned code (re-delivery in unordered mode); they are repaired in
+//! assembler.rs, the oracle keys stay so that a regression is reported under the same name.
+use super::sbuf::ground;
 use crate::{hex, Rng, Runner};
 
-pub const ASM_RULE: &str = "case = up to maxops Assembler ops over a ground stream of 20..400 bytes: STREAM frames of a random framing plus re-framed retransmissions and exact duplicates, delivered in random order with allocation sizes len, len+small, 1200 or 40000 (forces defragmentation), interleaved with ordered/unordered reads (max_length 0,1,2,3,5,10,100,2^62), ensure_ordering, rare clear; empty frames only in ordered mode except in dedicated cases; case 0/1 of a run replay the witnesses of findings A1/A2, 1 case in 300 drives >1024 chunks (TooManyChunks); 10% malformed (boundary-biased offsets up to 2^64, alloc < len). non-trivial = out-of-order arrival + overlapping retransmission + at least 3 data reads";
+pub const ASM_RULE: &str = "case = up to maxops Assembler ops over a ground stream of 20..400 bytes: STREAM frames of a random framing plus re-framed retransmissions and exact duplicates, delivered in random order with allocation sizes len, len+small, 1200 or 40000 (forces defragmentation), interleaved with ordered/unordered reads (max_length 0,1,2,3,5,10,100,2^62), ensure_ordering, rare clear; empty frames (incl. FIN-only) in both modes; case 0/1 of a run replay the witnesses of the repaired defects A1/A2, 1 case in 300 drives >1024 chunks (TooManyChunks); 10% malformed (boundary-biased offsets up to 2^64, alloc < len). non-trivial = out-of-order arrival + overlapping retransmission + at least 3 data reads";
 
 const KEY_A1: &str = "A1-stale-chunk-after-ordered-to-unordered-switch";
 const KEY_A2: &str = "A2-empty-frame-poisons-received-ranges";
@@ -20,17 +22,11 @@ fn obs_insert(resp: &str) -> String {
     }
 }
 
-fn field<'a>(resp: &'a str, key: &str) -> Option<&'a str> {
-    let (_, st) = resp.split_once("| ")?;
-    st.split(' ').find_map(|kv| kv.strip_prefix(key))
-}
-
 fn obs_read(resp: &str) -> String {
-    let cov = field(resp, "c=").unwrap_or("-");
     let w: Vec<&str> = resp.split(' ').collect();
     match w.first().copied() {
-        Some("ok") if w.len() > 3 => format!("{} {} {cov}", w[1], w[2]),
-        Some("none") => format!("none {cov}"),
+        Some("ok") if w.len() > 3 => format!("{} {}", w[1], w[2]),
+        Some("none") => "none".into(),
         Some("err") => "err".into(),
         _ => "panic".into(),
     }
@@ -44,8 +40,8 @@ struct Track {
     /// ordered mode: the read index; length of the concatenated ordered output
     next: u64,
     unordered: bool,
-    /// offsets below the read index that were still buffered when unordered mode was entered
-    stale_at_switch: Vec<(u64, u64)>,
+    /// read index when unordered mode was entered (everything below was read in ordered mode)
+    switch_at: Option<u64>,
     empty_in_unordered: bool,
     cleared: bool,
     reads: u32,
@@ -81,7 +77,6 @@ fn do_insert(r: &mut Runner, t: &mut Track, off: u64, len: u64, alloc: u64) -> S
 /// ordered / unordered read with the C01 oracles applied to the implementation's answer
 fn do_read(r: &mut Runner, t: &mut Track, max: u64, ordered: bool) -> String {
     let m = if ordered { "ord" } else { "unord" };
-    // coverage before the call (needed to know what was stale when unordered mode is entered)
     let resp = r.op_observed(&format!("asm read {max} {m}"), Some(&obs_read));
     let w: Vec<&str> = resp.split(' ').collect();
     match w[0] {
@@ -155,7 +150,7 @@ fn do_read(r: &mut Runner, t: &mut Track, max: u64, ordered: bool) -> String {
                 let dup = (off..off + len)
                     .find(|&x| t.delivered.get(x as usize).copied().unwrap_or(false));
                 if let Some(x) = dup {
-                    if t.stale_at_switch.iter().any(|&(a, b)| a <= x && x < b) {
+                    if t.switch_at.is_some_and(|r| x < r) {
                         t.dup_key = Some(KEY_A1);
                         fail_once(r, KEY_A1, &format!("offset {x} was read in ordered mode and is returned again by an unordered read (chunk {off}+{len})"));
                     } else if t.empty_in_unordered {
@@ -181,17 +176,9 @@ fn do_read(r: &mut Runner, t: &mut Track, max: u64, ordered: bool) -> String {
     resp
 }
 
-fn enter_unordered_bookkeeping(t: &mut Track, resp_before: &str) {
-    // `resp_before`: the last response that printed the state while still ordered
-    if t.unordered {
-        return;
-    }
-    if let Some(c) = field(resp_before, "c=").and_then(parse_ranges) {
-        t.stale_at_switch = c
-            .into_iter()
-            .filter(|&(a, _)| a < t.next)
-            .map(|(a, b)| (a, b.min(t.next)))
-            .collect();
+fn enter_unordered_bookkeeping(t: &mut Track) {
+    if !t.unordered && t.switch_at.is_none() {
+        t.switch_at = Some(t.next);
     }
 }
 
@@ -207,7 +194,7 @@ pub fn asm(rng: &mut Rng, r: &mut Runner, maxops: usize) {
         delivered: vec![false; 2600],
         next: 0,
         unordered: false,
-        stale_at_switch: Vec::new(),
+        switch_at: None,
         empty_in_unordered: false,
         cleared: false,
         reads: 0,
@@ -216,10 +203,9 @@ pub fn asm(rng: &mut Rng, r: &mut Runner, maxops: usize) {
     if idx == 0 {
         // witness of finding A1
         do_insert(r, &mut t, 0, 10, 10);
-        let last = do_insert(r, &mut t, 2, 4, 4);
-        let _ = last;
-        let before = do_read(r, &mut t, 100, true);
-        enter_unordered_bookkeeping(&mut t, &before);
+        do_insert(r, &mut t, 2, 4, 4);
+        do_read(r, &mut t, 100, true);
+        enter_unordered_bookkeeping(&mut t);
         do_read(r, &mut t, 100, false);
         do_read(r, &mut t, 100, false);
         r.nontrivial();
@@ -227,6 +213,7 @@ pub fn asm(rng: &mut Rng, r: &mut Runner, maxops: usize) {
     }
     if idx == 1 {
         // witness of finding A2
+        enter_unordered_bookkeeping(&mut t);
         r.op("asm ensure unord");
         t.unordered = true;
         do_insert(r, &mut t, 20, 0, 0);
@@ -292,11 +279,9 @@ pub fn asm(rng: &mut Rng, r: &mut Runner, maxops: usize) {
     } else {
         None
     };
-    let allow_empty_unordered = rng.chance(1, 40);
     let mut want_unordered = rng.chance(1, 8);
     let (mut ooo, mut overlap) = (false, false);
     let mut hi = 0u64;
-    let mut last_state = String::new();
     let mut fi = 0;
     for n in 0..maxops {
         if Some(n) == go_unordered_at {
@@ -307,9 +292,6 @@ pub fn asm(rng: &mut Rng, r: &mut Runner, maxops: usize) {
             0..=54 if fi < frames.len() => {
                 let (off, len) = frames[fi];
                 fi += 1;
-                if len == 0 && t.unordered && !allow_empty_unordered {
-                    continue;
-                }
                 if off < hi {
                     ooo = true;
                 }
@@ -336,13 +318,13 @@ pub fn asm(rng: &mut Rng, r: &mut Runner, maxops: usize) {
                     _ => 100,
                 };
                 if !ordered {
-                    enter_unordered_bookkeeping(&mut t, &last_state);
+                    enter_unordered_bookkeeping(&mut t);
                 }
                 do_read(r, &mut t, max, ordered)
             }
             93..=95 => {
                 if !ordered {
-                    enter_unordered_bookkeeping(&mut t, &last_state);
+                    enter_unordered_bookkeeping(&mut t);
                     t.unordered = true;
                 }
                 let resp = r.op(&format!(
@@ -394,9 +376,6 @@ pub fn asm(rng: &mut Rng, r: &mut Runner, maxops: usize) {
                 None => fail_once(r, "asm-panic", "Assembler panicked on well-formed stream frames"),
             }
             return;
-        }
-        if resp.contains("| ") {
-            last_state = resp.clone();
         }
         if ooo && overlap && t.reads >= 3 {
             r.nontrivial();
